@@ -68,7 +68,12 @@ int main(int argc, char **argv) {
         fprintf(v_out, "{\"op\":\"keypair\","); v_emit_bytes("seed", seed, 32); fputc(',', v_out); v_emit_bytes("pk", pk, 32); fputc(',', v_out); v_emit_bytes("sk", sk, 64); fputs("}\n", v_out);
         unsigned long long sl = 0; crypto_sign_detached(sig, &sl, m, mlen, sk);
         unsigned char *sm = malloc(mlen + 64); unsigned long long sml = 0; crypto_sign(sm, &sml, m, mlen, sk);
-        int comb = sl == 64 && sml == mlen + 64 && !memcmp(sm, sig, 64) && !memcmp(sm + 64, m, mlen); free(sm);
+        int comb = sl == 64 && sml == mlen + 64 && !memcmp(sm, sig, 64) && !memcmp(sm + 64, m, mlen);
+        /* the forms that do not ask for the lengths (siglen_p / smlen_p / mlen_p = NULL) */
+        { unsigned char sgn[64], *om = malloc(mlen + 1); memset(sgn, 0, 64); comb &= crypto_sign_detached(sgn, NULL, m, mlen, sk) == 0 && !memcmp(sgn, sig, 64);
+          memset(sm, 0, mlen + 64); comb &= crypto_sign(sm, NULL, m, mlen, sk) == 0 && !memcmp(sm, sig, 64) && !memcmp(sm + 64, m, mlen);
+          memset(om, 0x55, mlen + 1); comb &= crypto_sign_open(om, NULL, sm, mlen + 64, pk) == 0 && !memcmp(om, m, mlen) && om[mlen] == 0x55; free(om); }
+        free(sm);
         fprintf(v_out, "{\"op\":\"sign\",\"ph\":false,"); v_emit_bytes("seed", seed, 32); fputc(',', v_out); v_emit_bytes("m", m, mlen); fputc(',', v_out); v_emit_bytes("sig", sig, 64); fprintf(v_out, ",\"forms_agree\":%s}\n", comb ? "true" : "false");
         rec_verify("honest", sig, m, mlen, pk, 1);
         /* pre-hashed, multi-part under two chunkings */
